@@ -161,18 +161,28 @@ Definition convert_file_url_to_pathname (url : list N) : url_res (list N) :=
   split_to_pathname (urlsplit (strip_precomputed url)).
 
 (* ---------- parsed info (JSON is an oracle) ---------- *)
-(* What json.loads + ShardedAccessorBase.info_is_sharded see:
-   PBadJson          json.JSONDecodeError (caught by get_accessor_for_url)
-   PCrash k          another exception escapes (UnicodeDecodeError, AttributeError on a non-dict ...)
-   PScales l         a dict; l lists, per entry of "scales", the value of
-                     scale["sharding"]["@type"] when that lookup succeeds *)
-Inductive pinfo := PBadJson | PCrash (k : crash) | PScales (l : list (option (list N))).
+(* What json.loads, ShardedAccessorBase.info_is_sharded and the info setter
+   of ShardedAccessorBase see:
+   PBadJson      json.JSONDecodeError (caught by get_accessor_for_url)
+   PCrash k      json.loads raises something else (UnicodeDecodeError), or
+                 "scales" is a truthy non-iterable: both users crash with k
+   PNotDict      valid JSON that is not an object
+   PScales l     an object; l describes the entries of "scales" (absent: [])
+   per entry:
+   SNotDict      the entry is not an object
+   SNoSharding   an object without a truthy "sharding"
+   SShardingBad  "sharding" is truthy but not an object
+   SType t       "sharding" is an object; t is its "@type" when that is a string *)
+Inductive pscale := SNotDict | SNoSharding | SShardingBad | SType (t : option (list N)).
+Inductive pinfo := PBadJson | PCrash (k : crash) | PNotDict | PScales (l : list pscale).
 
 Definition s_sharded_v1 : list N :=
   [110;101;117;114;111;103;108;97;110;99;101;114;95;117;105;110;116;54;52;95;115;104;97;114;100;101;100;95;118;49].
-Definition scale_is_sharded (s : option (list N)) : bool :=
-  match s with Some t => bytes_eqb t s_sharded_v1 | None => false end.
-Definition info_is_sharded (l : list (option (list N))) : bool :=
+(* ShardedScaleBase.is_sharded: scale["sharding"]["@type"] == "...", any
+   exception -> False *)
+Definition scale_is_sharded (s : pscale) : bool :=
+  match s with SType (Some t) => bytes_eqb t s_sharded_v1 | _ => false end.
+Definition info_is_sharded (l : list pscale) : bool :=
   negb (match l with [] => true | _ => false end) && forallb scale_is_sharded l.
 
 Definition s_info : list N := [105;110;102;111].
@@ -381,12 +391,24 @@ Definition hs_fetch (use_ro : bool) (scale_url shard_name : list N) (hl : N) (cm
       else HRet (Crash AssertionError))).
 
 (* ---------- ShardedHttpAccessor.__init__ ---------- *)
+(* the info setter: the first offending scale decides.  AttributeError has
+   no constructor in Val.crash; it is reported as TypeError (harness
+   convention, see harness/props/c14.py) *)
+Fixpoint setter_scales (l : list pscale) : outcome unit :=
+  match l with
+  | [] => Ok tt
+  | SNotDict :: _ => Crash TypeError            (* scale.get: AttributeError *)
+  | SNoSharding :: _ => IOErr                   (* ShardedIOError: not a sharded source *)
+  | SShardingBad :: _ => Crash TypeError        (* sharding.pop: AttributeError / TypeError *)
+  | SType t :: r => if scale_is_sharded (SType t) then setter_scales r else IOErr
+  end.
 Definition sharded_http_ctor_check (p : pinfo) : outcome unit :=
   match p with
   | PBadJson => Crash ValueError               (* json.JSONDecodeError is a ValueError *)
   | PCrash k => Crash k
+  | PNotDict => Crash AssertionError           (* ".info must be a dictionary" *)
   | PScales [] => Crash AssertionError         (* ".info must have scales property" *)
-  | PScales l => if forallb scale_is_sharded l then Ok tt else IOErr
+  | PScales l => setter_scales l
   end.
 
 (* ---------- get_accessor_for_url ---------- *)
@@ -413,6 +435,7 @@ Definition sniff (fetched : outcome B) : outcome bool :=
       match parse_info d with
       | PBadJson => Ok false
       | PCrash k => Crash k
+      | PNotDict => Crash TypeError         (* info_json.get: AttributeError *)
       | PScales l => Ok (info_is_sharded l)
       end
   | AccessErr => Ok false
